@@ -302,6 +302,56 @@ func GuardScope(p *core.Prog, r *core.Report) {
 			r.Bad(rule, "exemption:"+name+":from-two-segments", p.Pos(f.Pos()), fmt.Sprintf("the exemption must hold for every path of two or more segments ending in the exempted name; the length conditions found are len > %v (exempting paths: %d): a top-level default / example of a body parameter or response (two segments) loses or gains the exemption", bs, trueRuns))
 		}
 	}
+	// the other direction for the one shape rule that is exempted by path names: every report of
+	// "items requires type array" is made only where none of the three exemptions holds (inside `properties`, a
+	// default or an example value the word `items` is a member name or plain data, not the keyword)
+	if f := p.Func("(*objectValidator).checkItemsMustBeTypeArray"); f != nil {
+		nRep := 0
+		var lacking []string
+		core.EachInstr(f, func(i ssa.Instruction) {
+			c, ok := i.(*ssa.Call)
+			if !ok {
+				return
+			}
+			g := core.StaticCallee(c)
+			if g == nil || g.Pkg == nil || !strings.HasSuffix(g.Pkg.Pkg.Path(), "go-openapi/errors") {
+				return
+			}
+			nRep++
+			excluded := map[string]bool{}
+			for _, cd := range core.CondsAt(c.Block()) {
+				if pc, isCall := cd.Value.(*ssa.Call); isCall && !cd.Sense {
+					if h := core.StaticCallee(pc); h != nil {
+						excluded[h.Name()] = true
+						// a helper answering for several predicates at once (`isExempt() = a() || b() || c()`): false
+						// means each of them is false, provided it returns true as soon as one holds
+						if p.InSubject(h) && len(h.Blocks) > 0 {
+							core.EachInstr(h, func(j ssa.Instruction) {
+								if ic, isIC := j.(*ssa.Call); isIC {
+									if hh := core.StaticCallee(ic); hh != nil && disjunctOfResult(h, ic) {
+										excluded[hh.Name()] = true
+									}
+								}
+							})
+						}
+					}
+				}
+			}
+			for _, name := range []string{"isProperties", "isDefault", "isExample"} {
+				h := p.Func("(*objectValidator)." + name)
+				if h == nil || !excluded[h.Name()] {
+					lacking = append(lacking, name)
+				}
+			}
+		})
+		if nRep == 0 {
+			r.Unk(rule, "exemption:items-type-array:all-three", p.Pos(f.Pos()), "the rule reports nothing any more")
+		} else if len(lacking) > 0 {
+			r.Bad(rule, "exemption:items-type-array:all-three", p.Pos(f.Pos()), "\"items requires type: array\" is reported without the exemption "+strings.Join(uniq(lacking), ", ")+" having been excluded: inside a default / example value or a `properties` map the word items is data, and a valid document is rejected")
+		} else {
+			r.OK(rule, "exemption:items-type-array:all-three", p.Pos(f.Pos()), fmt.Sprintf("all %d reports are made only where isProperties, isDefault and isExample are false", nRep))
+		}
+	}
 	r.Count("guard_branches", nGuards)
 	r.Floor("guard_branches", 5)
 }
@@ -363,4 +413,48 @@ func KeyExemption(p *core.Prog, r *core.Report) {
 	} else {
 		r.OK(rule, "validateNoAdditionalProperties:names", p.Pos(notAllowed.Pos()), "no member name is exempt from additionalProperties: false")
 	}
+}
+
+// disjunctOfResult: the boolean call c inside h is one of the alternatives of `return a() || b() || …` — h
+// answers true as soon as c does, so that h being false means c was false.
+func disjunctOfResult(h *ssa.Function, c *ssa.Call) bool {
+	returned := func(phi *ssa.Phi) bool {
+		for _, ref := range core.Refs(phi) {
+			if ret, ok := ref.(*ssa.Return); ok && len(ret.Results) == 1 && ret.Results[0] == ssa.Value(phi) {
+				return true
+			}
+		}
+		return false
+	}
+	for _, ref := range core.Refs(c) {
+		switch u := ref.(type) {
+		case *ssa.Return:
+			if len(u.Results) == 1 && u.Results[0] == ssa.Value(c) {
+				return true // a single call returned as it is
+			}
+		case *ssa.Phi:
+			if returned(u) {
+				return true // the last alternative
+			}
+		case *ssa.If:
+			if u.Cond != ssa.Value(c) {
+				continue
+			}
+			tb := u.Block().Succs[0]
+			for _, ins := range tb.Instrs {
+				phi, ok := ins.(*ssa.Phi)
+				if !ok {
+					break
+				}
+				for k, pb := range tb.Preds {
+					if pb == u.Block() {
+						if kc, isK := phi.Edges[k].(*ssa.Const); isK && kc.Value != nil && kc.Value.ExactString() == "true" && returned(phi) {
+							return true
+						}
+					}
+				}
+			}
+		}
+	}
+	return false
 }
